@@ -168,3 +168,37 @@ func init() {
 		return err
 	})
 }
+
+// Files for code that reads configuration from disk (security.TLSInfo):
+// verif.TempFile(content) registers a file; os.ReadFile returns its content.
+// PEM decoding and certificate pools are opaque: the fake files hold no PEM
+// block, as natively.
+func init() {
+	reg(verifPkg+".TempFile", func(p *Path, _ *frame, a []Value) Value {
+		content, ok := p.concreteString(a[0])
+		if !ok {
+			panic(unsupported{"TempFile with symbolic content"})
+		}
+		p.nextID++
+		name := fmt.Sprintf("/tmp/vh-%d", p.nextID)
+		p.objs["file:"+name] = content
+		return name
+	})
+	reg("os.ReadFile", func(p *Path, _ *frame, a []Value) Value {
+		name, ok := p.concreteString(a[0])
+		if !ok {
+			panic(unsupported{"os.ReadFile of a symbolic name"})
+		}
+		c, ok := p.objs["file:"+name]
+		if !ok {
+			return Tuple{[]Value(nil), p.fsErr("NotExist", name)}
+		}
+		return Tuple{p.bytesToSlice([]byte(c.(string))), Iface{}}
+	})
+	reg("encoding/pem.Decode", func(p *Path, _ *frame, a []Value) Value {
+		return Tuple{(*Value)(nil), a[0]}
+	})
+	reg("crypto/x509.NewCertPool", func(p *Path, _ *frame, a []Value) Value {
+		return &NativeObj{Kind: "x509.CertPool", T: types.NewPointer(p.eng.namedType("crypto/x509", "CertPool"))}
+	})
+}
